@@ -63,6 +63,9 @@ def check(ctx: Ctx):
     _support.compose(ctx, _col17.check_pairwise, keep=("METRIC",))
     # the droplet-counting method hands the caller's options (threshold rule, minimal radius) to locate_droplets
     _support.check_kwargs_reach_call(ctx, "droplets.image_analysis.get_length_scale", "locate_droplets")
+    from ..rules import support as _sup_r12b
+
+    _sup_r12b.check_param_not_written(ctx, "droplets.image_analysis.threshold_otsu", "data")
     ctx.expect("FORWARD", 1)
     ctx.expect("GUARDSHAPE", 4)
     ctx.expect("EFFECT", 1)
